@@ -31,6 +31,11 @@
  *         pre = clear-text segments up to the handshake (what is left when the handshake starts is eaten by it),
  *         post = clear-text segments after a failed handshake, tls = results of SSL_read
  * result: a list of events, see Model/TlsSwitch.v
+ * With ca (engine mxconn, property C20): the real tryconn() walks a list with several addresses per entry and connect() may fail:
+ *         ca <route> <nservers> <mxspec> <headtlsa> then per SERVER the fields of c8/c9 (flags bit0 is ignored: the name is the entry's)
+ *         <mxspec>   per MX entry [named 0|1][naddr][outcome of connect() for each address: 0 = established, else the errno];
+ *                    the i-th established connection talks to server i; dnstlsa() is asked about the head entry (<headtlsa>)
+ *         result as c9, followed by ATT<flat index of every address connect() was called for, one octet each>
  * With c9 instead of c8 (engine qrconn, property C04) the results of net_read() are left out of the event list and a
  * last token WF1/WF0 says whether the status stream is empty or a sequence of records "<letter of rshKZD>...\n\0".
  */
@@ -179,6 +184,16 @@ static struct daneinfo c_dane[16];
 static unsigned char *sbuf; static size_t slen, scap;
 static jmp_buf h_done;
 static int h_code;
+/* op ca */
+#define CA_MAXENT 32
+#define CA_MAXADDR 200
+static int ca_mode, ca_nent, ca_naddr, ca_nsucc, ca_natt;
+static struct field *ca_headtlsa;
+static unsigned char ca_outcome[CA_MAXADDR], ca_att[4 * CA_MAXADDR];
+static struct in6_addr ca_addr[CA_MAXADDR];
+static struct ips ca_ent[CA_MAXENT];
+static char ca_name[CA_MAXENT][32];
+static unsigned char ca_named[CA_MAXENT], ca_cnt[CA_MAXENT];
 static struct in6_addr mxaddr[MAXCONN];
 static struct ips mxent[MAXCONN];
 static char mxname[MAXCONN][32];
@@ -283,6 +298,16 @@ static int h_connect(int s, const struct sockaddr *a, socklen_t l)
 	(void)s; (void)l;
 	/* which MX is this? the harness gave every entry its own address */
 	const struct sockaddr_in6 *s6 = (const struct sockaddr_in6 *)a;
+	if (ca_mode) {
+		int flat = s6->sin6_addr.s6_addr[15] - 1;
+		if (ca_natt < (int)sizeof(ca_att)) ca_att[ca_natt++] = flat;
+		if (flat < 0 || flat >= ca_naddr) { out_str(" BADADDR"); errno = EINVAL; return -1; }
+		if (ca_outcome[flat] != 0) { errno = ca_outcome[flat]; return -1; }
+		c_cur = ca_nsucc++;
+		c_clear = &cc[c_cur].pre;
+		out_str(" C"); out_int(c_cur);
+		return 0;
+	}
 	c_cur = s6->sin6_addr.s6_addr[15] - 1;
 	c_clear = &cc[c_cur].pre;
 	out_str(" C"); out_int(c_cur);
@@ -343,15 +368,23 @@ int dnstlsa(const char *host, const unsigned short port, struct daneinfo **out)
 {
 	(void)port;
 	int k = -1;
-	for (int i = 0; i < c_n; i++) if (strcmp(host, mxname[i]) == 0) k = i;
+	struct field *tl;
+	if (ca_mode) {
+		for (int i = 0; i < ca_nent; i++) if (strcmp(host, ca_name[i]) == 0) k = i;
+		tl = ca_headtlsa;
+		if (k != 0) { out_str(" T"); out_int(k); *out = NULL; return 0; }	/* only ever asked about the head */
+	} else {
+		for (int i = 0; i < c_n; i++) if (strcmp(host, mxname[i]) == 0) k = i;
+		tl = k >= 0 ? cc[k].tlsa : NULL;
+	}
 	out_str(" T"); out_int(k);
 	if (k < 0) { *out = NULL; return 0; }
-	int cnt = cc[k].tlsa->len / 2;
+	int cnt = tl->len / 2;
 	if (cnt > 16) cnt = 16;
 	for (int i = 0; i < cnt; i++) {
-		c_dane[i].cert_usage = cc[k].tlsa->p[2 * i];
+		c_dane[i].cert_usage = tl->p[2 * i];
 		c_dane[i].selector = 0; c_dane[i].matching_type = 1;
-		c_dane[i].data = cc[k].tlsa->p + 2 * i; c_dane[i].datalen = 2;
+		c_dane[i].data = tl->p + 2 * i; c_dane[i].datalen = 2;
 	}
 	*out = c_dane;
 	return cnt;
@@ -360,6 +393,25 @@ int dnstlsa(const char *host, const unsigned short port, struct daneinfo **out)
 void getmxlist(char *remhost, struct ips **mx)
 {
 	(void)remhost;
+	if (ca_mode) {
+		int flat = 0;
+		for (int i = 0; i < ca_nent; i++) {
+			snprintf(ca_name[i], sizeof(ca_name[i]), "mx%d.example.net", i);
+			ca_ent[i].addr = &ca_addr[flat];
+			ca_ent[i].name = ca_named[i] ? ca_name[i] : NULL;
+			ca_ent[i].priority = 10 * (i + 1);
+			ca_ent[i].count = ca_cnt[i];
+			ca_ent[i].next = i + 1 < ca_nent ? &ca_ent[i + 1] : NULL;
+			for (int j = 0; j < ca_cnt[i]; j++, flat++) {
+				memset(&ca_addr[flat], 0, sizeof(ca_addr[flat]));
+				ca_addr[flat].s6_addr[10] = 0xff; ca_addr[flat].s6_addr[11] = 0xff;
+				ca_addr[flat].s6_addr[12] = 192; ca_addr[flat].s6_addr[13] = 1; ca_addr[flat].s6_addr[14] = 2;
+				ca_addr[flat].s6_addr[15] = flat + 1;
+			}
+		}
+		*mx = &ca_ent[0];
+		return;
+	}
 	for (int i = 0; i < c_n; i++) {
 		memset(&mxaddr[i], 0, sizeof(mxaddr[i]));
 		mxaddr[i].s6_addr[10] = 0xff; mxaddr[i].s6_addr[11] = 0xff;
@@ -390,10 +442,28 @@ int send_envelope(const unsigned int recodeflag, const char *sender, int rcptcou
 
 static void run_case(int nf, struct field *f)
 {
+	ca_mode = nf >= 1 && f[0].len == 1 && f[0].p[0] == 0xca;
+	if (ca_mode) {
+		if (nf < 5 || f[1].len != 1 || f[2].len != 1 || f[2].p[0] > MAXCONN || f[4].len % 2) { out_str("BADCASE"); return; }
+		/* the MX list */
+		size_t o = 0; int succ = 0;
+		ca_nent = 0; ca_naddr = 0; ca_nsucc = 0; ca_natt = 0;
+		while (o < f[3].len) {
+			if (o + 2 > f[3].len || ca_nent >= CA_MAXENT || f[3].p[o] > 1 || f[3].p[o + 1] < 1) { out_str("BADCASE"); return; }
+			int cnt = f[3].p[o + 1];
+			if (o + 2 + cnt > f[3].len || ca_naddr + cnt > CA_MAXADDR) { out_str("BADCASE"); return; }
+			ca_named[ca_nent] = f[3].p[o]; ca_cnt[ca_nent] = cnt;
+			for (int j = 0; j < cnt; j++) { ca_outcome[ca_naddr] = f[3].p[o + 2 + j]; succ += ca_outcome[ca_naddr] == 0; ca_naddr++; }
+			ca_nent++;
+			o += 2 + cnt;
+		}
+		if (ca_nent == 0 || succ > f[2].p[0]) { out_str("BADCASE"); return; }
+		ca_headtlsa = &f[4];
+	} else
 	if (nf < 3 || f[0].len != 1 || (f[0].p[0] != 0xc8 && f[0].p[0] != 0xc9) || f[1].len != 1 || f[2].len != 1 || f[2].p[0] > MAXCONN || f[2].p[0] < 1) { out_str("BADCASE"); return; }
 	c_n = f[2].p[0];
-	h_proj = f[0].p[0] == 0xc9;
-	int at = 3;
+	h_proj = f[0].p[0] == 0xc9 || ca_mode;
+	int at = ca_mode ? 5 : 3;
 	for (int i = 0; i < c_n; i++) {
 		if (nf < at + 7) { out_str("BADCASE"); return; }
 		for (int j = 0; j < 7; j++) if (j != 1 && f[at + j].len != 1) { out_str("BADCASE"); return; }
@@ -450,6 +520,7 @@ static void run_case(int nf, struct field *f)
 		}
 		out_str(wf ? " WF1" : " WF0");
 	}
+	if (ca_mode) { out_str(" ATT"); out_hex(ca_att, ca_natt); }
 }
 
 int main(void) { return harness_main(); }
